@@ -130,6 +130,7 @@ class Observer:
         self.ncommit = 0
         self.before_hooks = []  # fn(con, ncommit)
         self.after_hooks = []  # fn(ncommit)
+        self.rollback_hooks = []  # fn(con), right after a transaction was rolled back
         self.failures = []  # (kind, message)
         self.snap_at = None  # set of commit numbers, or "all"
         self.snap_dir = None
@@ -142,6 +143,14 @@ class Observer:
             try:
                 hook(con, self.ncommit + 1)
             except Exception as exc:  # noqa: BLE001 - recorded, judged by the check
+                self.failures.append(("observer-hook", f"{type(exc).__name__}: {exc}\n"
+                                      f"{traceback.format_exc()}"))
+
+    def after_rollback(self, con):
+        for hook in self.rollback_hooks:
+            try:
+                hook(con)
+            except Exception as exc:  # noqa: BLE001
                 self.failures.append(("observer-hook", f"{type(exc).__name__}: {exc}\n"
                                       f"{traceback.format_exc()}"))
 
@@ -182,9 +191,18 @@ def make_dbsession_class():
                 # roll back and release the lock, then let the build die
                 await super().__aexit__(type(abort), abort, abort.__traceback__)
                 raise abort
+            con = None
+            if exc is not None and obs is not None and obs.rollback_hooks:
+                try:
+                    con = self._require_transaction_con()
+                except RuntimeError:
+                    con = None
             await super().__aexit__(exc_type, exc, tb)
             if exc is None and obs is not None:
                 obs.after_commit()
+            elif con is not None:
+                # no await since the rollback: nobody else can have written in between
+                obs.after_rollback(con)
 
     return VerifDBSession
 
